@@ -250,6 +250,7 @@ pub fn run_one(opts: RunOpts) -> RunResult {
         aged: None,
         same_process_probes: 0,
         part_weight: *rng.pick(&[25u64, 25, 3]),
+        fault_weight: *rng.pick(&[2u64, 2, 12]),
         target: opts.target.clone(),
         rng: Rng::new(mix(opts.seed, 77)),
         rec_cache: vec![None; n_hashes],
@@ -566,12 +567,14 @@ fn enabled_steps(w: &World, mgr_up: bool, script: &Option<Script>) -> Vec<(Step,
                     v.push((Step::Apply(c.id, true), 25 * slow / 20));
                 }
                 if !scripted && w.faults_done < w.cfg.max_faults {
+                    // some runs have a flaky node (faults 6x as likely)
+                    let fw = w.fault_weight;
                     if c.method == "datastore" && w.cfg.fault_tier >= 1 {
-                        v.push((Step::Fault(c.id, "reject"), 2));
-                        v.push((Step::Fault(c.id, "lost-reply"), 2));
+                        v.push((Step::Fault(c.id, "reject"), fw));
+                        v.push((Step::Fault(c.id, "lost-reply"), fw));
                     }
                     if w.cfg.fault_tier >= 2 && matches!(c.method.as_str(), "listdatastore" | "listsendpays" | "waitsendpay" | "getinfo") && (c.method != "getinfo" || mgr_up) {
-                        v.push((Step::Fault(c.id, "read-error"), 2));
+                        v.push((Step::Fault(c.id, "read-error"), fw));
                     }
                 }
             }
@@ -835,7 +838,15 @@ async fn lifetime(shared: Shared, local_pk: secp256k1::PublicKey, rng: &mut Rng,
         };
         let step = match choice {
             Some(s) => {
-                idle_advanced_ms = 0;
+                // the block watcher's periodic getinfo is not progress of any payment: it must
+                // not keep a run with a stuck HTLC alive until the step cap
+                let is_poll = match &s {
+                    Step::Apply(id, _) | Step::Reply(id) => lock(&shared).calls.iter().any(|c| c.id == *id && c.method == "getinfo"),
+                    _ => false,
+                };
+                if !is_poll {
+                    idle_advanced_ms = 0;
+                }
                 s
             }
             None => {
